@@ -236,6 +236,26 @@ func c06Multi(c *Ctx, parts [3]string, local map[string]int64) {
 	}
 	r.Eval(1)
 	local["multi.names"]++
+	// the caller's own slice of parts, spread into the call and used again:
+	// the helper only reads it, and answers the same the second time
+	own := []string{parts[0], parts[1], parts[2]}
+	q1 := influxql.QuoteIdent(own...)
+	if own[0] != parts[0] || own[1] != parts[1] || own[2] != parts[2] {
+		r.Violation("QuoteIdent-changed-its-arguments", det(q1, fmt.Sprintf("the slice passed as QuoteIdent(parts...) holds %q afterwards", own)))
+		return
+	}
+	if q2 := influxql.QuoteIdent(own...); q1 != q || q2 != q {
+		r.Violation("QuoteIdent-not-a-function", det(q, fmt.Sprintf("QuoteIdent(a, b, c)=%q, QuoteIdent(parts...)=%q, again=%q", trunc(q, 200), trunc(q1, 200), trunc(q2, 200))))
+		return
+	}
+	for k := 1; k <= 2; k++ {
+		sub := own[:k]
+		_ = influxql.QuoteIdent(sub...)
+		if own[0] != parts[0] || own[1] != parts[1] || own[2] != parts[2] {
+			r.Violation("QuoteIdent-changed-its-arguments", det(q1, fmt.Sprintf("after QuoteIdent(parts[:%d]...) the caller's slice holds %q", k, own)))
+			return
+		}
+	}
 	// as a source
 	text := "SELECT v FROM " + q + " WHERE sentinel = 1"
 	st, err, pan, pv, _ := parseQuery1(text)
